@@ -32,11 +32,11 @@ type c18Case struct {
 }
 
 var c18TreeCfg = h.TreeCfg{
-	MaxEntries: 12, MaxDepth: 3, Names: []string{"a", "b", "c", "d", "l", "m", "w", "x", "$c", "-o"},
+	MaxEntries: 12, MaxDepth: 3, Names: []string{"a", "b", "c", "d", "l", "m", "w", "x", "$c", "-o", "d:x"},
 	Kinds: []h.Kind{h.KFile, h.KFile, h.KSymlink, h.KSymlink, h.KSymlink},
 	// names with surrounding blanks or glob characters cannot be written as include patterns
 	SiblingSuffixes: []string{"-b", "-", ".", ".b", "0", "~", "+", ","},
-	SymTargets:      []string{"a", "b", "d", "../a", "../b", "../../a", "/a", "/b/c", "/", ".", "..", "../..", "l", "m", "../l", "a/b", "d/x", "dangling", "/dangling/x", "c/../d", "../d/../a", "l/x", "self/x", "../../../..", "x"},
+	SymTargets:      []string{"a", "b", "d", "../a", "../b", "../../a", "/a", "/b/c", "/", ".", "..", "../..", "l", "m", "../l", "a/b", "d/x", "dangling", "/dangling/x", "c/../d", "../d/../a", "l/x", "self/x", "../../../..", "x", "/d:x", "d:x", "/a/d:x", "/d:x/a"},
 }
 
 func genC18(t *rapid.T) *c18Case {
